@@ -18,6 +18,7 @@ func init() {
 		Explanation: "Login throttling and session lifetime. Decided: (D1) check before evaluate: the only path from the login route to the password evaluation (newCookie -> findUser/bcrypt) passes the rate limiter's check with no time left (or no limiter configured); (D2) one unspoofable key: the value given to check and the address given to newCookie (used for inc/remove) are the same value whose only origin is netutil.SplitHost(r.RemoteAddr) — never a request header; " +
 			"(D3) a failed evaluation always increments the counter, a successful one removes it before the session is created, and success never increments; the limiter's map is touched only under its lock; (D4) a session authenticates only when found and not expired; the expired path deletes it from the map and from the file; logout deletes the map entry first and then the file record; on start only unexpired sessions are loaded; the session map is touched only under Auth.lock. " +
 			"the database record of a session is addressed by the decoded token of the text that addresses the table entry; (D5) failure records are removed only by the expiry cleanup (on the time-is-up edge) and by the successful-login reset. " +
+			"(D3 is decided from the password evaluation onwards along the edges consistent with its outcome, so the counting may come before or after the branch that returns.) " +
 			"Not decided: attempt counting (off-by-one, window of the first failure), durations and clock behaviour, bbolt durability.",
 		RuleText:    "CFG edge guards, provenance slices, must-pass ordering and lock-dominance on SSA.",
 		Assumptions: []string{"golang.org/x/crypto/bcrypt and bbolt behave as documented"},
@@ -148,28 +149,39 @@ func runC12(c *Ctx) {
 			return e
 		}
 		limNil, _ := core.CondEdges(nc, isLimiterNil)
-		starts := func(edges map[core.Edge]bool) []core.Point {
-			var s []core.Point
-			for e := range edges {
-				s = append(s, core.Point{Block: e.From.Succs[e.Succ], Idx: 0})
+		union := func(ms ...map[core.Edge]bool) map[core.Edge]bool {
+			out := map[core.Edge]bool{}
+			for _, m := range ms {
+				for e := range m {
+					out[e] = true
+				}
 			}
-			return s
+			return out
 		}
-		failStarts, okStarts := starts(okEdges(false)), starts(okEdges(true))
-		if len(failStarts) == 0 || len(okStarts) == 0 {
+		// the searches start right after the password evaluation and follow only the edges that are consistent with
+		// its outcome (the counting may come before or after the branch that returns)
+		var starts []core.Point
+		for _, call := range core.CallsTo(nc, "(*home.Auth).findUser") {
+			pt := core.PointOf(call.Instr)
+			pt.Idx++
+			starts = append(starts, pt)
+		}
+		failEdges, okEdgesT := okEdges(false), okEdges(true)
+		if len(starts) != 1 || len(failEdges) == 0 || len(okEdgesT) == 0 {
 			r.Undecided("C12-D3", "newCookie-findUser-branch", p.FnPos(nc), "branch on findUser's ok result not found")
 		} else {
-			f1, tr1, _ := core.Reach(core.Query{From: failStarts, Target: core.IsReturn, Avoid: isInc, AvoidEdges: limNil})
+			// failed evaluation: only the ok == false edges
+			f1, tr1, _ := core.Reach(core.Query{From: starts, Target: core.IsReturn, Avoid: isInc, AvoidEdges: union(limNil, okEdgesT)})
 			r.Check(!f1, "C12-D3", "failure-increments", p.FnPos(nc), "every failed evaluation increments the counter for the address",
 				"a failed login can return without incrementing the failure counter", p.TraceString(tr1))
-			f2, tr2, _ := core.Reach(core.Query{From: okStarts, Target: core.IsCallTo(false, "(*home.Auth).addSession"), Avoid: isRemove, AvoidEdges: limNil})
+			f2, tr2, _ := core.Reach(core.Query{From: starts, Target: core.IsCallTo(false, "(*home.Auth).addSession"), Avoid: isRemove, AvoidEdges: union(limNil, failEdges)})
 			r.Check(!f2, "C12-D3", "success-clears-before-session", p.FnPos(nc), "a successful login clears the failure record before the session is created",
 				"a successful login can create a session without clearing the failure record", p.TraceString(tr2))
-			f3, tr3, _ := core.Reach(core.Query{From: okStarts, Target: isInc})
+			f3, tr3, _ := core.Reach(core.Query{From: starts, Target: isInc, AvoidEdges: failEdges})
 			r.Check(!f3, "C12-D3", "success-never-increments", p.FnPos(nc), "a successful login never increments the failure counter",
 				"a successful login increments the failure counter", p.TraceString(tr3))
 			// session is created only on the success edge
-			f4, tr4, _ := core.Reach(core.Query{From: failStarts, Target: core.IsCallTo(false, "(*home.Auth).addSession")})
+			f4, tr4, _ := core.Reach(core.Query{From: starts, Target: core.IsCallTo(false, "(*home.Auth).addSession"), AvoidEdges: okEdgesT})
 			r.Check(!f4, "C12-D3", "no-session-on-failure", p.FnPos(nc), "no session is created after a failed evaluation", "a session can be created although the password evaluation failed", p.TraceString(tr4))
 		}
 	} else {
@@ -362,7 +374,7 @@ func sessionValidity(c *Ctx, rule string) {
 	})
 	var starts []core.Point
 	for e := range gExp {
-		starts = append(starts, core.Point{Block: e.From.Succs[e.Succ], Idx: 0})
+		starts = append(starts, core.AfterEdge(e))
 	}
 	isMapDelete := func(in ssa.Instruction) bool {
 		call, ok := in.(*ssa.Call)
@@ -467,6 +479,26 @@ func sessionKeyForm(c *Ctx, rule string) {
 			n++
 			key := call.Arg(1)
 			okKey := false
+			// the text itself may be handed over when the callee does the decoding: its database key is then
+			// hex.DecodeString of that parameter
+			if core.ResolveCellLoad(key) == text {
+				if callee := core.Callee(call.Common); callee != nil && len(callee.Params) > 1 {
+					for _, dc := range core.CallsTo(callee, "encoding/hex.DecodeString") {
+						if core.ResolveCellLoad(dc.Arg(0)) == ssa.Value(callee.Params[1]) {
+							// and the decoded value is what addresses the bucket
+							for _, bc := range core.Calls(callee) {
+								if strings.HasSuffix(bc.Key, "bbolt.Bucket).Delete") || strings.HasSuffix(bc.Key, "bbolt.Bucket).Put") {
+									for _, o := range core.Origins(bc.Arg(1), core.ProvOpts{Prog: p}) {
+										if o.Kind == "call" && o.Key == "encoding/hex.DecodeString" {
+											okKey = true
+										}
+									}
+								}
+							}
+						}
+					}
+				}
+			}
 			if ex, ok := core.ResolveCellLoad(key).(*ssa.Extract); ok && ex.Index == 0 {
 				if dc, ok := ex.Tuple.(*ssa.Call); ok && core.CalleeKey(dc.Common()) == "encoding/hex.DecodeString" && dc.Call.Args[0] == text {
 					okKey = true
@@ -499,6 +531,11 @@ func c12FailureRecords(c *Ctx) {
 							what = bi.Name()
 						}
 					}
+					if k := core.CalleeKey(x.Common()); (k == "maps.DeleteFunc" || strings.HasPrefix(k, "maps.DeleteFunc[")) && len(x.Call.Args) == 2 {
+						if fr, _, ok := core.LoadedField(x.Call.Args[0]); ok && fr.Type == "home.authRateLimiter" && fr.Field == "failedAuths" {
+							what = "deletefunc"
+						}
+					}
 				case *ssa.Store:
 					if fr, ok := core.FieldOfAddr(x.Addr); ok && fr.Type == "home.authRateLimiter" && fr.Field == "failedAuths" && fk != "home.newAuthRateLimiter" {
 						what = "replace"
@@ -522,6 +559,34 @@ func c12FailureRecords(c *Ctx) {
 					})
 					off, _ := core.UnguardedSinks(fn, func(i2 ssa.Instruction) bool { return i2 == in }, g)
 					r.Check(ng > 0 && len(off) == 0, "C12-D5", key, p.InstrPos(in), "the cleanup removes a record only after its time is up", "the cleanup removes records whose time is not up: the count of an address below the limit restarts")
+				case fk == "(*home.authRateLimiter).cleanupLocked" && what == "deletefunc":
+					// maps.DeleteFunc(m, pred): a record goes when pred says so; pred may say so only when the time is up
+					lit, _ := core.FnValue(in.(*ssa.Call).Call.Args[1])
+					okPred := lit != nil && len(lit.Blocks) > 0
+					if okPred {
+						isAfter := func(at core.Atom) (bool, bool) {
+							if at.Op != token.ILLEGAL {
+								return false, false
+							}
+							call, _, ok := core.CallResult(at.Base)
+							return ok && core.CalleeKey(call.Common()) == "(time.Time).After", true
+						}
+						g, _ := core.CondEdges(lit, isAfter)
+						off, _ := core.UnguardedSinksLocal(lit, func(i2 ssa.Instruction) bool {
+							ret, isRet := core.AsReturn(i2)
+							if !isRet || len(ret.Results) != 1 {
+								return false
+							}
+							v := core.ResolveLocalLoad(core.Res(ret, 0))
+							if bv, isC := core.ConstBool(v); isC {
+								return bv
+							}
+							m, _ := isAfter(core.Decompose(v))
+							return !m // the After result itself may be returned
+						}, g)
+						okPred = len(off) == 0
+					}
+					r.Check(okPred, "C12-D5", fmt.Sprintf("failure-record-removal:%s:delete", fk), p.InstrPos(in), "the cleanup removes a record only after its time is up", "the cleanup removes records whose time is not up: the count of an address below the limit restarts")
 				default:
 					r.Fail("C12-D5", key, p.InstrPos(in), fk+" removes failure records outside the expiry cleanup and the successful-login reset: an address that is about to be blocked gets a fresh count")
 				}
